@@ -229,9 +229,18 @@ fn escape_json(s: &str) -> String {
     o
 }
 
-fn sig_tokens(sig: &syn::Signature, ret: Option<&str>, stats: &mut norm::Stats) -> (TokenStream, TokenStream) {
+fn sig_tokens(sig: &syn::Signature, ret: Option<&str>, stats: &mut norm::Stats, bodyless: bool) -> (TokenStream, TokenStream) {
     // returns (everything up to and including return type, where clause)
     let mut sig = sig.clone();
+    if bodyless {
+        for a in sig.inputs.iter_mut() {
+            if let syn::FnArg::Typed(pt) = a {
+                if let syn::Pat::Ident(pi) = &mut *pt.pat {
+                    pi.mutability = None;
+                }
+            }
+        }
+    }
     if sig.asyncness.is_some() {
         sig.asyncness = None;
         stats.bump("N7.async_fn");
@@ -291,7 +300,7 @@ fn emit_fn(d: &FnDirective, srcs: &mut Sources, out: &mut Out, stats: &mut norm:
             out.push(&format!("{}#[verifier::external_body]", ind));
         }
         let ret = if d.opts.contains_key("noret") { None } else { Some(d.opts.get("ret").map(|s| s.as_str()).unwrap_or("r")) };
-        let (head, wc) = sig_tokens(&sig, ret, stats);
+        let (head, wc) = sig_tokens(&sig, ret, stats, mode_sig);
         let vis_s = if d.opts.contains_key("pub") { "pub ".to_string() } else {
             let v = vis.to_string();
             if v.is_empty() { v } else { format!("{} ", v) }
@@ -315,7 +324,16 @@ fn emit_fn(d: &FnDirective, srcs: &mut Sources, out: &mut Out, stats: &mut norm:
                 out.push(&format!("{};", ind1));
                 return;
             }
-            Some(_) => die("template", &format!("`sig` used but {} has a body", desc)),
+            Some(_) => {
+                if d.opts.contains_key("dropbody") {
+                    // N15: a trait's default body is verified where it is inherited (materialised
+                    // into each implementing impl), so the trait itself only declares the method.
+                    out.push(&format!("{};", ind1));
+                    stats.bump("N15.default_body_declared_only");
+                    return;
+                }
+                die("template", &format!("`sig` used but {} has a body", desc))
+            }
         }
     }
     if mode_ext {
